@@ -18,7 +18,7 @@ import (
 	"verif/harness/ev"
 )
 
-var rec = ev.New("C11", "real-runtime Fatal path: a re-executed child logs N messages through a diode.Writer (waiter or poller mode, optionally wrapped in a FilteredLevelWriter / MultiLevelWriter, also beside a second diode whose destination rejects every message) and then calls Logger.Fatal (the fatal event written, or filtered out by a child logger's level, the global level or a rejecting sampler); also with a wrapped writer so slow that draining takes ~6 s; the parent requires exit status 1 and all N messages plus the fatal message on the child's stdout, in order")
+var rec = ev.New("C11", "real-runtime Fatal path: a re-executed child logs N messages through a diode.Writer (waiter or poller mode, optionally behind a FilteredLevelWriter, MultiLevelWriter, SyncWriter, LevelWriterAdapter, a ConsoleWriter passed by value or a nest of these, also beside a second diode whose destination rejects every message) and then calls Logger.Fatal (the fatal event written, or filtered out by a child logger's level, the global level or a rejecting sampler); also with a wrapped writer so slow that draining takes ~6 s; the parent requires exit status 1 and all N messages plus the fatal message on the child's stdout, in order")
 
 func TestMain(m *testing.M) {
 	if c := os.Getenv("VERIF_C11_CHILD"); c != "" {
@@ -50,6 +50,15 @@ func child(c string) {
 		l = zerolog.New(&zerolog.FilteredLevelWriter{Writer: zerolog.LevelWriterAdapter{Writer: dw}, Level: zerolog.TraceLevel})
 	case "multi":
 		l = zerolog.New(zerolog.MultiLevelWriter(dw))
+	case "console":
+		// a ConsoleWriter handed to New by value, printing to the diode
+		l = zerolog.New(zerolog.ConsoleWriter{Out: dw, NoColor: true, PartsExclude: []string{zerolog.TimestampFieldName}})
+	case "sync":
+		l = zerolog.New(zerolog.SyncWriter(dw))
+	case "adapter":
+		l = zerolog.New(zerolog.LevelWriterAdapter{Writer: dw})
+	case "nested":
+		l = zerolog.New(zerolog.MultiLevelWriter(zerolog.SyncWriter(&zerolog.FilteredLevelWriter{Writer: zerolog.LevelWriterAdapter{Writer: dw}, Level: zerolog.TraceLevel})))
 	case "multi2fail":
 		// two diodes behind one fan-out; the first one's destination rejects every message: the second
 		// diode must still be drained when Fatal closes the fan-out
@@ -132,7 +141,7 @@ func TestFatalDrains(t *testing.T) {
 		}
 	}()
 	for _, mode := range []string{"waiter", "poller"} {
-		for _, wrap := range []string{"plain", "filtered", "multi", "multi2fail"} {
+		for _, wrap := range []string{"plain", "filtered", "multi", "multi2fail", "console", "sync", "adapter", "nested"} {
 			for _, n := range []int{0, 1, 7, 500, 3000} {
 				for rep := 0; rep < 3; rep++ {
 					// the third repetition of the small cases filters the fatal event out (by a child
@@ -173,12 +182,16 @@ func TestFatalDrains(t *testing.T) {
 						bad = fmt.Sprintf("%d lines on stdout, want %d pending (+ the fatal message unless it is filtered)", len(lines), n)
 					default:
 						for i := 0; i < n; i++ {
-							if !strings.Contains(lines[i], fmt.Sprintf(`"i":%d,`, i)) {
+							tok := fmt.Sprintf(`"i":%d,`, i)
+							if wrap == "console" {
+								tok = fmt.Sprintf(" i=%d ", i)
+							}
+							if !strings.Contains(lines[i]+" ", tok) {
 								bad = fmt.Sprintf("line %d is %q", i, lines[i])
 								break
 							}
 						}
-						if bad == "" && fatalKind == "written" && !strings.Contains(lines[n], `"level":"fatal"`) {
+						if bad == "" && fatalKind == "written" && !strings.Contains(lines[n], `"level":"fatal"`) && !(wrap == "console" && strings.Contains(lines[n], "FTL")) {
 							bad = fmt.Sprintf("last line is %q, want the fatal message", lines[n])
 						}
 					}
@@ -191,7 +204,7 @@ func TestFatalDrains(t *testing.T) {
 			}
 		}
 	}
-	rec.Sample(map[string]interface{}{"campaign": "Fatal path in a re-executed child", "modes": []string{"waiter", "poller"}, "wraps": []string{"plain", "filtered", "multi", "multi2fail"}, "pending": []int{0, 1, 7, 500, 3000}})
+	rec.Sample(map[string]interface{}{"campaign": "Fatal path in a re-executed child", "modes": []string{"waiter", "poller"}, "wraps": []string{"plain", "filtered", "multi", "multi2fail", "console", "sync", "adapter", "nested"}, "pending": []int{0, 1, 7, 500, 3000}})
 }
 
 func tailStr(s string) string {
